@@ -178,7 +178,9 @@ CANDIDATE_NAMES = [chr(c) for c in range(ord("A"), ord("Z") + 1)] + ["Msg", "Que
     # further plain words, many of them names of framework items that generated code mentions by path
     # (not the names the renderer itself writes unqualified in handler signatures: Addr, Binary, Coin, Reply, Response, Empty, ..)
     "Key", "Value", "Config", "State", "Ctx", "Deps", "Env", "Info", "Storage", "Event", "Token", "Owner",
-    "Admin", "Payload", "Messages", "Sudo", "Migrate", "Instantiate", "Remote", "Interface"]
+    "Admin", "Payload", "Messages", "Sudo", "Migrate", "Instantiate", "Remote", "Interface",
+    # the suite's own convention (`ParamT`): plain words with a `T` suffix; and a chain type the generated reply dispatch mentions
+    "ExecT", "QueryT", "MsgT", "SudoT", "DataT", "ItemT", "KeyT", "ValueT", "SubMsgResponse"]
 # names that are reserved for associated types of interfaces (sylvia documents them) but are ordinary parameter names of a contract
 CONTRACT_ONLY_NAMES = ["Error", "ExecC", "QueryC", "Contract"]
 
